@@ -34,6 +34,22 @@ def gen_cases(rng: random.Random, quick: bool) -> list[dict]:
         cases.append({"name": f"dummy-manager-{phase}", "shape": {"kind": "pipeline", "n": 2}, "manager": "dummy",
                       "plan": [{"step": "/s1", "tag": "0", "phase": phase, "kind": "soft", "count": 1}], "max_retries": None,
                       "limit": None, "fails": 1, "stage": 1, "n": 2, "phase": phase})
+    # an ExecuteStep WITHOUT output ports: its failure must be noticed all the same (retried, bounded, and fatal without a manager)
+    cases.append({"name": "sink-step-fails-once-limit3", "shape": {"kind": "pipeline", "n": 2, "sink": True}, "max_retries": 3,
+                  "plan": [{"step": "/s1", "tag": "0", "phase": "execute", "kind": "soft", "count": 1}],
+                  "limit": 3, "fails": 1, "stage": 1, "n": 2, "phase": "execute"})
+    cases.append({"name": "sink-step-always-fails-limit3", "shape": {"kind": "pipeline", "n": 2, "sink": True}, "max_retries": 3,
+                  "plan": [{"step": "/s1", "tag": "0", "phase": "execute", "kind": "soft", "count": 9}],
+                  "limit": 3, "fails": 9, "stage": 1, "n": 2, "phase": "execute"})
+    cases.append({"name": "sink-step-dummy-manager", "shape": {"kind": "pipeline", "n": 2, "sink": True}, "manager": "dummy", "max_retries": None,
+                  "plan": [{"step": "/s1", "tag": "0", "phase": "execute", "kind": "soft", "count": 1}],
+                  "limit": None, "fails": 1, "stage": 1, "n": 2, "phase": "execute"})
+    # two failing jobs on volatile data: upstream A fails once, downstream B twice (fail-stop, losing A's data too), limit 3:
+    # A would need a 4th execution -> the workflow must raise after 3 executions of A
+    cases.append({"name": "chain-A-fails-once-B-twice-failstop-limit3", "shape": {"kind": "pipeline", "n": 2}, "max_retries": 3,
+                  "plan": [{"step": "/s0", "tag": "0", "phase": "execute", "kind": "soft", "count": 1},
+                           {"step": "/s1", "tag": "0", "phase": "execute", "kind": "failstop", "count": 2, "lose": [["/s1", "0"], ["/s0", "0"]]}],
+                  "limit": 3, "expect": "raise", "acts": "s0 f0 s1 f1:0 f1:0", "n": 2, "expect_versions": [3, 2]})
     # a scattered step: one element exhausts its retries, the others do not fail
     m = rng.choice([3, 4])
     el = rng.randrange(m)
@@ -46,7 +62,7 @@ def gen_cases(rng: random.Random, quick: bool) -> list[dict]:
 def judge(case: dict, r: dict) -> list[tuple[str, str]]:
     fails = []
     name = case["name"]
-    limit, f = case["limit"], case["fails"]
+    limit, f = case["limit"], case.get("fails", 0)
     if r["outcome"] in ("hang", "harness-error"):
         fails.append((f"run:{r['outcome']}", f"{name}: {r.get('msg', '')[:300]}"))
         return fails
@@ -67,6 +83,18 @@ def judge(case: dict, r: dict) -> list[tuple[str, str]]:
         if sum(r["attempts"].values()) > case["n"]:
             fails.append(("dummy-manager-retried", f"{name}: attempts {r['attempts']}"))
         return fails
+    if case.get("expect"):
+        if (r["outcome"] == "ok") != (case["expect"] == "ok"):
+            fails.append(("completed-although-retries-exhausted" if r["outcome"] == "ok" else "failed-below-retry-limit",
+                          f"{name}: expected the workflow to {case['expect']}, outcome {r['outcome']}; attempts {r['attempts']} versions {r['versions']}"))
+        return fails
+    # an execute-phase failure is retried: the failing job runs min(f + 1, limit) times
+    if case.get("phase") == "execute" and not case.get("scatter") and "stage" in case:
+        job = f"/s{case['stage']}/0"
+        want = min(f + 1, limit)
+        if r["attempts"].get(job) != want:
+            fails.append(("failing-job-not-retried-as-expected", f"{name}: {job} executed {r['attempts'].get(job)} time(s), expected {want} "
+                          f"({f} injected failure(s), max_retries {limit}); outcome {r['outcome']}"))
     expect_ok = f < limit
     if expect_ok and r["outcome"] != "ok":
         fails.append(("failed-below-retry-limit", f"{name}: {f} failure(s) with max_retries={limit} but the run ended with {r['outcome']}: {r.get('msg', '')[:200]}"))
@@ -102,7 +130,7 @@ class C17(Property):
         quick = ctx.tier == "quick" and ctx.mode != "search"
         cases = gen_cases(ctx.rng, quick)
         lines, meta = [], []
-        for case, status, r in pmap(recov.run_case, cases, timeout=900, workers=6):
+        for case, status, r in recov.run_cases(cases, timeout=300, workers=6):
             if status != "ok":
                 ctx.fail("run:" + status, f"{case['name']}: {str(r)[:300]}", {"recovery": case})
                 continue
@@ -111,6 +139,10 @@ class C17(Property):
             for key, detail in judge(case, r):
                 ctx.fail(key, detail, {"recovery": case})
             if r["outcome"] in ("hang", "harness-error") or case.get("scatter"):
+                continue
+            if case.get("acts"):
+                lines.append(f"retry {case['limit']} r {case['n']} {case['acts']}")
+                meta.append((case, r, [r["versions"].get(f"/s{j}/0", 1) for j in range(case["n"])]))
                 continue
             # the same failure sequence on the model: job ids = pipeline stages; the failing stage fails `min(f, …)` times
             n, st, f = case["n"], case["stage"], case["fails"]
@@ -141,7 +173,9 @@ class C17(Property):
             mv = [int(x) for x in g.split("versions=")[1].split(" ")[0].split(",")]
             if failed != (r["outcome"] != "ok"):
                 ctx.disagree("retry accounting vs model", f"{case['name']}: model failed={failed}, real outcome {r['outcome']}", {"recovery": case})
-            elif case.get("manager") != "dummy" and mv != vers:
+            elif case.get("manager") != "dummy" and not failed and mv != vers:
+                # (when an update is refused the versions bumped before it depend on the iteration order of a set of names in
+                #  `_recover`; the model fixes one order, so versions are compared only for runs that complete)
                 ctx.disagree("retry accounting vs model", f"{case['name']}: versions model {mv} real {vers}", {"recovery": case})
 
     def replay(self, ctx: Ctx, data) -> None:
